@@ -3,11 +3,11 @@
 import json, sys
 claimed = {
  "C06": ("exploration", "4 C06",
-   "Seeded deterministic simulation of dynamic-scope worlds: two chains of 0-3 schema resources (embedded or Loader-supplied, each with $dynamicAnchor / $anchor / nothing, entered through $ref, fragment-less $dynamicRef or in-place applicators) ending in one $dynamicRef in fragment, resource-relative or pointer form; a history of 6-16 Validate calls on ONE Resolved alternates between the chains with right, wrong and missing markers; 4 map-order schedules. Every verdict is compared with a 6-line outermost-first model and, on disagreement, with a freshly resolved copy to tell a topology error from a scope leak. Decides the histories clause and the Loader-layout clause; the purely topological single-document clause is a by-product.",
+   "Seeded deterministic simulation of dynamic-scope worlds: two chains of 0-3 schema resources (embedded or Loader-supplied, each with $dynamicAnchor / $anchor / nothing, entered through $ref, fragment-less $dynamicRef or in-place applicators) ending in one $dynamicRef in fragment, resource-relative or pointer form, with resources entered at a subschema, detours through failing branches, permuted chains (same set of resources in two orders) and fan-out roots (both chains in one call); a history of 6-16 Validate calls on ONE Resolved alternates between the chains with right, wrong and missing markers; 4 map-order schedules. Every verdict is compared with a 6-line outermost-first model and, on disagreement, with a freshly resolved copy to tell a topology error from a scope leak. Decides the histories clause and the Loader-layout clause; the purely topological single-document clause is a by-product.",
    "Model written from 2020-12 core 8.2.3.2 (fallback to the initial target when no resource in scope declares the anchor). Intermediate hops are lexical. Cross-document references address document roots only (per-document $id tables are a documented limitation of the library).",
    "deterministic simulation: simulated Loader layouts x call histories on one Resolved x seeded map-order schedules, by-construction dynamic-scope model"),
  "C10": ("fault_enumeration", "4 C10",
-   "Seeded deterministic simulation of Resolve/Validate/ApplyDefaults against an adversarial simulated Loader: per universe, for every call index and every behaviour in {error, (nil,nil), root document again, wrong document, same *Schema pointer again}, every single failing document, documents that fail the resolver's checks and a 60-deep document chain; each operation runs under recover and a step budget (a hang is detected deterministically by counting yields). The same oracle wraps every operation of the other eight simulated workloads, which this check also runs. Decides the fault-sequence clause; robustness on arbitrary bytes / Schema graphs / Go representations / types is a pure function of the input and is not claimed.",
+   "Seeded deterministic simulation of Resolve/Validate/ApplyDefaults against an adversarial simulated Loader: per universe, for every call index and every behaviour in {error, (nil,nil), root document again, wrong document, same *Schema pointer again}, a document that declares the root's $id, every single failing document, documents that fail the resolver's checks and a 60-deep document chain; each operation runs under recover and a step budget (a hang is detected deterministically by counting yields). The same oracle wraps every operation of the other eight simulated workloads, which this check also runs. Decides the fault-sequence clause; robustness on arbitrary bytes / Schema graphs / Go representations / types is a pure function of the input and is not claimed.",
    "A hang is a step-budget overrun (4*10^5 yields; the largest legitimate operation uses about 10^5). Instances are canonical encoding/json values held through a pointer.",
    "deterministic simulation: enumerated loader fault behaviours per call index + step-budget hang detector + recover around every simulated operation"),
  "C12": ("exploration", "4 C12",
@@ -15,7 +15,7 @@ claimed = {
    "Equal is the definition (C11 not claimed). Values behind pointers and typed containers are not generated. purego maphash makes a seed a replayable decision.",
    "deterministic simulation: hash seed and forced collisions as injected faults, map-order schedules; definition oracle via public Equal; hash-law check via generated helper"),
  "C13": ("exploration", "4 C13",
-   "Seeded deterministic simulation of k=2..6 virtual goroutines x <=4 operations over shared Resolved values, Schema trees, instances and ForOptions, in a plain build (8000 runs quick) and a -race build (1600 runs quick): a seeded scheduler decides who runs at every operation boundary and plants pre-emptions inside operations; token hand-off is invisible to the race detector so the library's own unsynchronised accesses are reported; memo-table misses are injected and caches start cold or warm. Oracles: no race report inside the library; every result equals the sequential reference computed on an independently built identical world; a sequential re-run after the join still matches.",
+   "Seeded deterministic simulation of k=2..6 virtual goroutines x <=4 operations over shared Resolved values, Schema trees, instances and ForOptions, in a plain build (12000 runs quick) and a -race build (2400 runs quick, spread over 64 short-lived processes): a seeded scheduler decides who runs at every operation boundary and plants pre-emptions inside operations; token hand-off is invisible to the race detector so the library's own unsynchronised accesses are reported; memo-table misses are injected and caches start cold or warm; a third of the runs hammer one shared value with one family of operations under dense pre-emption; yields also sit right after every deferred call. Oracles: no race report inside the library; every result equals the sequential reference computed on an independently built identical world; a sequential re-run after the join still matches.",
    "Race detector shadow memory is finite; sync.Pool/GC timing and library-spawned goroutines are outside the seam. Loader results are owned by the calling Resolve.",
    "deterministic simulation: seeded virtual-goroutine scheduler (PCT-style pre-emption) + Go race detector + sequential-equivalence oracle"),
  "C15": ("exploration", "4 C15",
@@ -31,11 +31,11 @@ claimed = {
    "Expected key order comes from a 10-line model of the property text. Bytes compared per entry point.",
    "deterministic simulation: every map iteration behind a seeded seam, repeated marshaling under many schedules, token-stream order oracle"),
  "C03": ("fault_enumeration", "4 C03",
-   "Seeded deterministic simulation of the real resolver and evaluator against a simulated document store (Loader): per generated universe every reachable reference is probed with right and wrong markers, every subset of failing documents and every 'k-th call fails' plan is enumerated, recovery after each failure is checked, and all of it is repeated under 4 map-order schedules. Worlds are sampled (seeded search), fault sets per world are enumerated. Right level because the property quantifies over inputs x configurations x fault sequences of the library's only I/O seam.",
+   "Seeded deterministic simulation of the real resolver and evaluator against a simulated document store (Loader): per generated universe every reachable reference - hop-to-hop through instance descent and in-place (allOf / sibling $ref) to leaves - is probed with right and wrong markers, every subset of failing documents and every 'k-th call fails' plan is enumerated, recovery after each failure is checked, and all of it is repeated under 4 map-order schedules. Worlds are sampled (seeded search), fault sets per world are enumerated. Right level because the property quantifies over inputs x configurations x fault sequences of the library's only I/O seam.",
    "Trusts net/url for RFC 3986 resolution and the by-construction model (reference text derived from its target). Cross-document references address document roots; pointer fragments do not cross embedded resources; error text is never compared.",
    "deterministic simulation: simulated Loader/document store with enumerated fault sets + seeded map-order schedules, by-construction reference model"),
  "C14": ("exploration", "4 C14",
-   "Seeded deterministic simulation over call histories x map-order schedules x hash seeds/collision masks x processes: the same history of Resolve/Validate/Marshal calls is executed on one schema tree under the canonical schedule and under 5 (quick) or 13 (thorough) further schedules; purity fingerprints after every call, repeatability inside the history, equal result vectors across schedules, and a sample of runs repeated in fresh processes at GOMAXPROCS 1/4/16.",
+   "Seeded deterministic simulation over call histories x map-order schedules x hash seeds/collision masks x processes: the same history of Resolve/Validate/Marshal calls is executed on one schema tree (keyword-rich, cluster, wide, Loader universe or dynamic-scope fan-out world) under the canonical schedule and under 5 (quick) or 13 (thorough) further schedules; purity fingerprints, repeatability inside the history (including the sequence of Loader requests), equal result vectors across schedules, and a sample of runs repeated in fresh processes at GOMAXPROCS 1/4/16. The check also runs the C19 driver (Schema values with PropertyOrder), the C15 driver (instances around Validate) and the C12 driver (verdicts under other hash seeds and forced collisions), whose purity / seed-independence oracles report under C14.",
    "Observable result = verdict, bytes, Resolve ok/err (error text excluded). encoding/json's own map encoding and maps.Clone/Copy are assumed order-insensitive. Sampled, not exhaustive.",
    "deterministic simulation: every map iteration and hash seed behind a seeded seam, histories replayed under many schedules, fingerprints + cross-process digests"),
 }
